@@ -1,4 +1,5 @@
 import TsVerif.C09.Props
+import TsVerif.C09.TreeLevel
 #print axioms TsVerif.C09.decode_prefix_stable
 #print axioms TsVerif.C09.decode_local
 #print axioms TsVerif.C09.lookahead_chunk_indep
@@ -13,3 +14,5 @@ import TsVerif.C09.Props
 #print axioms TsVerif.C09.utf16_utf8_same_chars
 #print axioms TsVerif.C09.doAdvance_col
 #print axioms TsVerif.C09.column_cache_eq
+#print axioms TsVerif.C09.offsets_one_to_one
+#print axioms TsVerif.C09.driver_chunk_indep
